@@ -1,32 +1,38 @@
 #!/bin/bash
 # applies every kept seeded change to a private scratch worktree of /repo in turn, runs the property's quick
 # check against it (VERIF_REPO), expects a VIOLATION (exit 1), and reverts. Seeds marked NOT DETECTED in
-# meta.json (outside the claim) are expected to pass. STREAMS (default 3) worktrees run in parallel, each
-# owning a disjoint set of properties (so evidence/replay files never collide). /repo itself is not touched.
+# meta.json (outside the claim) are expected to pass. Several worktrees run in parallel, each owning a
+# disjoint group of properties (so evidence/replay files never collide). /repo itself is not touched.
 # NOTE: the runs overwrite evidence/*.json with results for mutated trees: regenerate evidence afterwards.
 cd "$(dirname "$0")"
-OUT=${1:-seed_regression.txt}; STREAMS=${STREAMS:-3}
+OUT=${1:-seed_regression.txt}
 [ -n "$(git -C /repo status --porcelain)" ] && { echo "/repo not clean"; exit 2; }
 ./setup.sh >/dev/null 2>&1
+# groups balanced by the wall time of the properties' quick checks
+GROUPS_DEFAULT="C04|C01 C10|C02 C03 C20|C06 C08 C05 C09 C07|C11 C12 C13 C14 C15 C16 C17 C18 C19"
+IFS='|' read -ra GRP <<< "${SEED_GROUPS:-$GROUPS_DEFAULT}"
 run_stream() {
-  k=$1; WT=/tmp/wt_seedreg_$k
+  k=$1; props=" $2 "; WT=/tmp/wt_seedreg_$k
   git -C /repo worktree remove --force $WT 2>/dev/null
   git -C /repo worktree add -q $WT HEAD || return
   : > $OUT.$k
   for d in seeded/*/; do
-    n=$(basename $d); id=${n%[b-k]}; num=$((10#${id#C}))
-    [ $((num % STREAMS)) -eq $k ] || continue
+    n=$(basename $d); id=${n%[b-k]}; grp=$id
+    # a seed written for one property may be caught by another property's check (meta.json "check_property")
+    cp_=$(sed -n 's/.*"check_property": *"\(C[0-9][0-9]\)".*/\1/p' $d/meta.json 2>/dev/null); [ -n "$cp_" ] && id=$cp_
+    case "$props" in *" $grp "*) ;; *) continue;; esac
     [ -n "$ONLY" ] && ! echo " $ONLY " | grep -q " $n " && continue
     git -C $WT apply /verif/$d/patch.diff || { echo "$n PATCH-FAILS" >> $OUT.$k; continue; }
-    s=$(date +%s); VERIF_REPO=$WT VERIF_NO_SAMPLES=1 ./check $id > /root/seedreg_$n.log 2>&1; rc=$?; e=$(date +%s)
+    s=$(date +%s); VERIF_REPO=$WT VERIF_NO_SAMPLES=1 VERIF_FAILFAST=1 VERIF_MEMLIMIT_GB=8 ./check $id > /root/seedreg_$n.log 2>&1; rc=$?; e=$(date +%s)
     git -C $WT checkout -- . ; git -C $WT clean -fdq
-    exp=1; grep -q "NOT DETECTED" $d/meta.json 2>/dev/null && exp=0
+    exp=1; grep -q "NOT DETECTED\|NEUTRALISED" $d/meta.json 2>/dev/null && exp=0
     st=OK; [ $rc -ne $exp ] && st=UNEXPECTED
     echo "$n property=$id exit=$rc expected=$exp $st wall=$((e-s))s $(grep -m1 '^VIOLATION' /root/seedreg_$n.log | cut -c1-80)" >> $OUT.$k
   done
   git -C /repo worktree remove --force $WT
 }
-for k in $(seq 0 $((STREAMS-1))); do run_stream $k & done
+k=0
+for g in "${GRP[@]}"; do run_stream $k "$g" & k=$((k+1)); done
 wait
 cat $OUT.* | sort > $OUT; rm -f $OUT.*
 cat $OUT
